@@ -2,6 +2,8 @@ import CookModel.Lemmas.GroupConserve
 import CookModel.Lemmas.GroupAudit
 import CookModel.Lemmas.ParsedScaledRefs
 import CookModel.Props.C09
+import CookModel.Lemmas.GroupWhole
+import CookModel.Lemmas.GroupOutcome
 /-
   C10  Grouping and listing ingredients conserves quantities.
 
@@ -747,5 +749,107 @@ example : ∃ r, ParsedScaled r := by
   cases hc : (parseRecipe (α := Rat) env []).output with
   | none => rw [hc] at hsome; cases hsome
   | some c => exact ⟨_, env, [], c, hc, Or.inr rfl⟩
+
+/-! ## second audit (wave 5, notes/audit-C10.md): the one-recipe constructor, the whole list, the folded outcome -/
+
+/-- **`IngredientList::from_recipe`** (the one-recipe constructor; Num/IngListMore.lean, tied by `gr fromrecipe`) is
+    `add_recipe` into an empty list, and conserves like it: with the reference indices in range it returns, its names
+    are distinct, and the entry `name` holds — per class total, both ends, and texts — exactly the quantities of the
+    LISTED definitions displayed as `name`, each with those of its references.  In particular two definitions that
+    share a display name are both counted (a constructor that collects `(display name, quantity)` pairs into the
+    map, keeping the last one, violates this). -/
+theorem C10_from_recipe_conserves {c : Converter Rat} (hc : c.Sound) (ord : MapOrder Rat) (hord : ord.IsPerm)
+    (r : ScaledRecipe Rat) (hr : RefsInRange r.ingredients) (cls : QClass) (hlin : LinearClass c cls) :
+    ∃ l, fromRecipe ord c r = some l ∧ addRecipes ord c [] [r] = some l ∧ (BMap.keys l).Nodup ∧
+      (∀ name, Holds c cls (entryQuantities ord l name) (recipeQuantities name r)) ∧
+      (∀ name, (l.get? name).isSome = true ↔
+        ∃ i ∈ r.ingredients, i.relation.isDefinition = true ∧ i.modifiers.shouldBeListed = true ∧
+          i.displayName = name) := by
+  obtain ⟨l, hl, hh⟩ := C10_list_conserves hc ord hord [r] (by simpa using hr) [] cls hlin
+  have hfr : fromRecipe ord c r = some l := by
+    simp only [addRecipes] at hl
+    unfold fromRecipe
+    cases h : addRecipe ord c [] r with
+    | none => simp [h] at hl
+    | some l' => simpa [h] using hl
+  refine ⟨l, hfr, hl, C10_list_names_distinct ord [r] l hl, ?_, ?_⟩
+  · intro name
+    refine (hh name).trans (Holds.of_perm ?_)
+    simp [entryQuantities, BMap.get?]
+  · intro name
+    have := C10_listed_names ord r [] l hfr name
+    simpa [BMap.get?] using this
+
+/-- **The whole split list holds what the whole list held** ("splitting it by aisle never lose or invent amounts",
+    as ONE statement over the entire list): everything found under all (category, common name) pairs and under all
+    names of `other` together (`allCategorized`: what `CategorizedIngredientList::iter` yields) equals — per class
+    total, both ends, and texts — everything the list held under all its names (`allListed`), for every aisle
+    configuration.  So no entry is dropped, overwritten or counted twice anywhere in the split. -/
+theorem C10_categorize_whole_list {c : Converter Rat} (hc : c.Sound) (ord : MapOrder Rat) (hord : ord.IsPerm)
+    (aisle : Aisle.Conf) (l : IngredientList Rat) (hnd : (BMap.keys l).Nodup)
+    (cls : QClass) (hlin : LinearClass c cls) :
+    Holds c cls (allCategorized ord (categorize ord aisle l)) (allListed ord l) := by
+  apply holds_of_weights hc hlin
+  intro w hw
+  rw [gw_sumBy_allCategorized w ord hord, gw_sumBy_allListed w ord hord,
+    gw_categorize_total hw.joinAdditive ord hord aisle l hnd]
+
+/-- … and from the recipes: for any sequence of recipes (reference indices in range) and any aisle configuration,
+    the whole list and the whole split list both hold exactly the quantities of ALL listed definitions of all the
+    recipes, each with those of its references (`selRecipeQuantities (fun _ => true)`): nothing hidden or
+    reference-only is added, nothing listed is lost, whatever names collide. -/
+theorem C10_shopping_list_whole {c : Converter Rat} (hc : c.Sound) (ord : MapOrder Rat) (hord : ord.IsPerm)
+    (aisle : Aisle.Conf) (rs : List (ScaledRecipe Rat)) (hr : ∀ r ∈ rs, RefsInRange r.ingredients)
+    (cls : QClass) (hlin : LinearClass c cls) :
+    ∃ l, addRecipes ord c [] rs = some l ∧
+      Holds c cls (allListed ord l) (rs.flatMap (selRecipeQuantities (fun _ => true))) ∧
+      Holds c cls (allCategorized ord (categorize ord aisle l))
+        (rs.flatMap (selRecipeQuantities (fun _ => true))) := by
+  obtain ⟨l, hl⟩ := addRecipes_total (c := c) ord rs [] hr
+  have hnd := C10_list_names_distinct ord rs l hl
+  have h1 : Holds c cls (allListed ord l) (rs.flatMap (selRecipeQuantities (fun _ => true))) := by
+    apply holds_of_weights hc hlin
+    intro w hw
+    have key := audit_selW_addRecipes hw.additive hw.fitInvariant (fun _ => true) ord hord rs [] l hl
+    have e1 : gw_listW w l = selW w (fun _ => true) l := by
+      unfold gw_listW selW; apply sumBy_congr; intro e _; simp
+    rw [gw_sumBy_allListed w ord hord, e1, key, sumBy_flatMap]
+    simp only [selW, sumBy_nil]
+    rw [sumBy_congr rs (fun r _ => (audit_sumBy_selRecipeQuantities w _ r).symm)]
+    grind
+  exact ⟨l, hl, h1, (C10_categorize_whole_list hc ord hord aisle l hnd cls hlin).trans h1⟩
+
+/-- **The scaling outcome of a grouped ingredient** (`GroupedIngredient::outcome`, the fold in `group_ingredients`;
+    `foldOutcome`, tied by `gr outcome`): with the definition's index and its `referenced_from` indices inside the
+    outcome vector (true of a scaled recipe: the vector lines up with the ingredients, C08, and the indices are in
+    range, C06) the fold never hits the index panic and reports `Error` if the definition or any of its references
+    was not scalable, else `Fixed` if one of them was fixed, else the definition's own outcome. -/
+theorem C10_grouped_outcome (outs : List ScaleOutcome) (index : Nat) (refs : List Nat) (own : ScaleOutcome)
+    (hown : outs[index]? = some own) (hr : ∀ j ∈ refs, j < outs.length) :
+    foldOutcome outs index refs =
+      some (if (index :: refs).any (fun j => decide (outs[j]? = some .error)) then .error
+            else if (index :: refs).any (fun j => decide (outs[j]? = some .fixed)) then .fixed else own) :=
+  go_foldOutcome outs index refs own hown hr
+
+namespace C10Witness
+/-- `@flour{1%kg} @flour|meal{200%g}`-like table: two definitions displayed under the same name -/
+def twoDefs : ScaledRecipe Rat :=
+  ⟨[], [ing flour (some (num 1 (some kg))) ⟨.definition [] true, none⟩ 0,
+        ing flour (some (num 200 (some gram))) ⟨.definition [] true, none⟩ 0], [], [], []⟩
+end C10Witness
+
+open C10Witness in
+/-- the new statements speak about something: `from_recipe` of two same-named definitions lists ONE entry holding
+    both (1200 g); the whole tuna list (3000 g) arrives whole in the split; a definition scaled `Scaled` with a
+    `Fixed` reference folds to `Fixed`, with an `Error` one to `Error` -/
+example : ((fromRecipe idOrd cB twoDefs).map
+      (fun l => (l.map (·.1), total cB (.known .mass) (entryQuantities idOrd l flour)))) = some ([flour], (1200, 1200)) ∧
+    total cB (.known .mass) (allListed idOrd tunaList) = (3000, 3000) ∧
+    total cB (.known .mass) (allCategorized idOrd (categorize idOrd aisleConf tunaList)) = (3000, 3000) ∧
+    total cB (.known .mass) (allCategorized idOrd (categorizeOrig aisleConf tunaList)) = (1000, 1000) ∧
+    foldOutcome [.scaled, .noQuantity, .fixed] 0 [2] = some .fixed ∧
+    foldOutcome [.scaled, .error, .fixed] 0 [2, 1] = some .error ∧
+    foldOutcome [.scaled, .noQuantity] 0 [1] = some .scaled := by
+  decide +kernel
 
 end Cook
